@@ -13,6 +13,12 @@
 //! the call - class `edit_not_undone_by_auto_checkpoint`.  The generator decorates path arguments
 //! (blanks, unicode blanks, `./`, `//`, trailing `/`, ...: the decoration grammar of c13.rs) and
 //! populates the workspace with siblings of every target (`<stem>.tmp`, `<name>.tmp`, `<name>~`, ...).
+//! NAMES (builder ws14d): "before EVERY file-editing tool runs" - every name the REAL registry resolves (registered
+//! names and aliases, ToolRegistry::verif_names at run time) and names close to them go through ToolRunner::run with
+//! the argument shapes of every file-editing tool, judged by effect; random histories call a handler by any alias.
+//! STAMPS: histories on a frozen file-system clock / with the old modification time put back after an edit of the same
+//! length, several checkpoints of one file in a session (a create that trusts size + mtime shows).  An inotify watch on
+//! the directories around the root reports files that exist there only while an operation runs.
 #[path = "../ws_common.rs"]
 mod ws_common;
 #[path = "../ws13_common.rs"]
